@@ -130,10 +130,10 @@ Definition menu_reset_flags (m : menu) : menu :=
   set_can m (if b_next_avail (m_browse m) then true else m_can_next m)
             (if b_prev_avail (m_browse m) then true else m_can_prev m).
 
-(* Menu.Reset: items and sink cleared, keep restored, page count zeroed; the separator stays *)
+(* Menu.Reset: items, sink, browse configuration and marks cleared, keep restored, page count
+   zeroed; the separator (and the resource) stay *)
 Definition menu_reset (m : menu) : menu :=
-  menu_reset_flags
-    (mkMenu [] (m_browse m) 0 (m_can_next m) (m_can_prev m) false true (m_sep m) (m_has_rs m)).
+  mkMenu [] browse_zero 0 false false false true (m_sep m) (m_has_rs m).
 
 (* applyPage *)
 Definition menu_apply_page (m : menu) (idx : N) : res menu :=
